@@ -154,6 +154,12 @@ Proof.
   intro Hq. rewrite (nth_error_nth' _ 0) by (now rewrite seq_length). now rewrite seq_nth.
 Qed.
 
+Lemma firstn_seq0 j N : j <= N -> firstn j (seq 0 N) = seq 0 j.
+Proof.
+  intro Hj. replace N with (j + (N - j)) by lia. rewrite seq_app, firstn_app, seq_length.
+  rewrite Nat.sub_diag. cbn [firstn]. rewrite app_nil_r. apply firstn_all2. rewrite seq_length. lia.
+Qed.
+
 (* ------------------------------------------------------------------ *)
 Section Proofs.
 Variable H : bytes -> bytes.
@@ -538,7 +544,7 @@ Proof.
     split; [auto|]. split; [apply ext_refl|]. apply tree_stored_small. destruct c; cbn; lia.
   - set (zs := y :: ys') in *. assert (Nz : zs <> []) by discriminate.
     rewrite (spec_roots_cons zs Nz). cbn [carry_loop].
-    set (r' := rem16 zs ++ olist c).
+    remember (rem16 zs ++ olist c) as r' eqn:Dr.
     assert (Er' : carry_in (rem16 zs) c = HOk r').
     { subst r'. unfold carry_in. destruct c as [c0|]; cbn [olist].
       - inversion Fc; subst. apply node_add_ok; auto. rewrite rem16_length. lia.
@@ -580,35 +586,36 @@ Proof.
         change (@length bytes []) with 0 in E. lia. }
       rewrite (spec_roots_cons _ Nc).
       assert (Lcl : length (cl1 zs) < n) by (rewrite cl1_length; subst n; lia).
-      destruct r' as [|w r2] eqn:Erw.
+      destruct (Nat.eq_dec (length r') 0) as [L0|L0].
       * (* nothing at this level *)
-        assert (Hm0 : length zs mod 16 = 0) by (cbn [length] in Lr; lia).
+        assert (Hm0 : length zs mod 16 = 0) by lia.
         assert (Ec : c = None) by (destruct c; cbn [olist length] in Lr; [lia|reflexivity]).
-        subst c. cbn [node_hash olist] in *.
+        assert (Er0 : r' = []) by (apply length_zero_iff_nil; exact L0).
+        subst c. rewrite Er0. cbn [node_hash olist] in *.
         destruct (IH _ Lcl (cl1 zs) None m store eq_refl (cl1_h32 zs) Fc) as (m' & E & P0 & P1).
-        rewrite <- (spec_roots_cons _ Nc). rewrite E. exists m'. cbn [olist] in *. rewrite !app_nil_r in *.
+        rewrite <- (spec_roots_cons _ Nc). exists m'. cbn [olist] in *. rewrite !app_nil_r in *.
         rewrite (spec_root_step zs) by lia. rewrite (layer1_full zs Hm0).
-        split; [reflexivity|]. split; [auto|]. intros St Hs Hb.
+        split; [exact E|]. split; [auto|]. intros St Hs Hb.
         apply blocks_stored_unfold in Hb. destruct Hb as [Hb0 Hb1].
         destruct (P1 St Hs Hb1) as [(S' & X' & T')|C]; [left|right; exact C].
         split; [auto|]. split; [auto|]. apply tree_stored_unfold. split.
         -- intros _ q Hq. replace (nchunks (length zs)) with (length zs / 16) in Hq by (unfold nchunks; lia).
            apply X'. apply Hb0. exact Hq.
         -- rewrite (layer1_full zs Hm0). exact T'.
-      * rewrite <- Erw in *. clear Erw.
+      * idtac.
         assert (Lr1 : 1 <= length r' <= 16).
-        { split; [rewrite Lr in *; destruct r'; [discriminate|cbn; lia]|rewrite Lr; lia]. }
+        { lia. }
         assert (Eh : node_hash H r' = Some (hc r')).
         { unfold node_hash. destruct r'; [cbn in Lr1; lia|reflexivity]. }
         rewrite Eh. unfold node_bytes.
         set (m1 := if store then bm_set (hc r') (concat r') m else m).
         assert (Fc1 : Forall h32 (olist (Some (hc r')))) by (constructor; [apply H_len|constructor]).
         destruct (IH _ Lcl (cl1 zs) (Some (hc r')) m1 store eq_refl (cl1_h32 zs) Fc1) as (m' & E & P0 & P1).
-        rewrite <- (spec_roots_cons _ Nc). rewrite E. exists m'. cbn [olist] in *.
+        rewrite <- (spec_roots_cons _ Nc). exists m'. cbn [olist] in *.
         assert (El : layer1 (zs ++ olist c) = cl1 zs ++ [hc r']).
-        { subst r'. apply layer1_partial. rewrite <- Lr. exact Lr1. }
+        { rewrite Dr. apply layer1_partial. lia. }
         rewrite (spec_root_step (zs ++ olist c)) by (rewrite app_length; lia). rewrite El.
-        split; [reflexivity|]. split; [intros ->; subst m1; auto|].
+        split; [exact E|]. split; [intros ->; subst m1; auto|].
         intros -> Hs Hb. subst m1.
         apply blocks_stored_unfold in Hb. destruct Hb as [Hb0 Hb1].
         destruct (set_ext m (concat r') Hs) as [X1|C]; [|right; exact C].
@@ -619,9 +626,834 @@ Proof.
         -- intros _ q Hq. rewrite app_length in Hq.
            replace (nchunks (length zs + length (olist c))) with (S (length zs / 16)) in Hq by (unfold nchunks; lia).
            unfold chunk_stored. destruct (Nat.eq_dec q (length zs / 16)) as [->|Nq].
-           ++ rewrite chunk_at_last by lia. fold r'. apply X'. apply bm_gss.
+           ++ rewrite chunk_at_last by lia. rewrite <- Dr. apply X'. apply bm_gss.
            ++ rewrite chunk_at_app by lia. apply X', X1. apply Hb0. lia.
         -- rewrite El. exact T'.
 Qed.
 
+(* ------------------------------------------------------------------ *)
+(* arithmetic of levels                                                 *)
+
+Lemma pow16_pos n : 0 < 16 ^ n.
+Proof. induction n; cbn [Nat.pow]; lia. Qed.
+
+Lemma pow16_S n : 16 ^ S n = 16 * 16 ^ n.
+Proof. apply Nat.pow_succ_r'. Qed.
+
+Lemma pow16_mono a b : a <= b -> 16 ^ a <= 16 ^ b.
+Proof. intro. apply Nat.pow_le_mono_r; lia. Qed.
+
+Lemma pow16_lt_inv a b : 16 ^ a < 16 ^ b -> a < b.
+Proof. intro X. apply (Nat.pow_lt_mono_r_iff 16); lia. Qed.
+
+(* ceil (L / 16^n) *)
+Definition clen (n L : nat) : nat := (L + 16 ^ n - 1) / 16 ^ n.
+
+Lemma clen_0 L : clen 0 L = L.
+Proof. unfold clen. cbn [Nat.pow]. rewrite Nat.div_1_r. lia. Qed.
+
+Lemma clen_S n L : clen n (nchunks L) = clen (S n) L.
+Proof.
+  unfold clen, nchunks. pose proof (pow16_pos n) as Hp. rewrite pow16_S.
+  set (b := 16 ^ n) in *.
+  replace ((L + 15) / 16 + b - 1) with ((L + 15) / 16 + (b - 1)) by lia.
+  rewrite <- (Nat.div_add (L + 15) (b - 1) 16) by lia.
+  rewrite Nat.div_div by lia. f_equal; lia.
+Qed.
+
+Lemma clen_ge2 n L : 2 <= clen n L <-> 16 ^ n < L.
+Proof.
+  unfold clen. pose proof (pow16_pos n) as Hp. set (b := 16 ^ n) in *. split; intro X.
+  - destruct (Nat.lt_ge_cases b L) as [|Hle]; auto.
+    assert ((L + b - 1) / b < 2) by (apply Nat.div_lt_upper_bound; lia). lia.
+  - apply Nat.div_le_lower_bound; lia.
+Qed.
+
+Lemma clen_pos n L : 1 <= L -> 1 <= clen n L.
+Proof.
+  intro X. unfold clen. pose proof (pow16_pos n). apply Nat.div_le_lower_bound; lia.
+Qed.
+
+Lemma div_lt_clen n L k : k < L -> k / 16 ^ n < clen n L.
+Proof.
+  intro X. unfold clen. pose proof (pow16_pos n) as Hp. set (b := 16 ^ n) in *.
+  replace (L + b - 1) with ((L - 1) + 1 * b) by lia. rewrite Nat.div_add by lia.
+  assert (k / b <= (L - 1) / b) by (apply Nat.div_le_mono; lia). lia.
+Qed.
+
+Lemma div_le_clen n L l : l <= L -> l / 16 ^ n <= clen n L.
+Proof.
+  intro X. unfold clen. pose proof (pow16_pos n) as Hp. apply Nat.div_le_mono; lia.
+Qed.
+
+Lemma layer_at_S : forall n ys, layer_at ys (S n) = layer1 (layer_at ys n).
+Proof. induction n; intros ys; [reflexivity|]. cbn [layer_at] in *. apply IHn. Qed.
+
+Lemma layer_at_length : forall n ys, length (layer_at ys n) = clen n (length ys).
+Proof.
+  induction n; intros ys; cbn [layer_at].
+  - now rewrite clen_0.
+  - rewrite IHn, layer1_length. apply clen_S.
+Qed.
+
+Lemma layer_at_h32 : forall n ys, Forall h32 ys -> Forall h32 (layer_at ys n).
+Proof. induction n; intros ys F; cbn [layer_at]; auto. apply IHn. apply layer1_h32. Qed.
+
+(* LevelFromLen *)
+Definition lv (L : nat) : nat := level_from_len (N.of_nat L).
+
+Lemma N16_pow v : (16 ^ N.of_nat v)%N = N.of_nat (16 ^ v).
+Proof. now rewrite Nat2N.inj_pow. Qed.
+
+Lemma lv_spec L : 1 <= L -> L <= 16 ^ lv L /\ (lv L = 0 \/ 16 ^ (lv L - 1) < L).
+Proof.
+  intro HL. unfold lv, level_from_len.
+  destruct (N.eqb_spec (N.of_nat L) 0) as [E|_]; [lia|].
+  set (s := N.size (N.of_nat L - 1)).
+  set (v := ((s + 3) / 4)%N).
+  assert (Hgt : (N.of_nat L - 1 < 2 ^ s)%N) by apply N.size_gt.
+  assert (Hle : (2 ^ s <= N.succ_double (N.of_nat L - 1))%N) by apply N.size_le.
+  assert (E16 : forall w : N, (16 ^ w = 2 ^ (4 * w))%N).
+  { intro w. change 16%N with (2 ^ 4)%N. now rewrite <- N.pow_mul_r. }
+  assert (Ev : (16 ^ v = N.of_nat (16 ^ N.to_nat v))%N).
+  { rewrite <- N16_pow, N2Nat.id. reflexivity. }
+  split.
+  - assert (X : (2 ^ s <= 16 ^ v)%N).
+    { rewrite E16. apply N.pow_le_mono_r; [discriminate|]. subst v. lia. }
+    rewrite Ev in X. lia.
+  - destruct (N.eqb_spec v 0) as [E0|N0]; [left; lia|right].
+    assert (Hs : (1 <= s)%N) by (subst v; lia).
+    assert (X : (16 ^ (v - 1) <= 2 ^ (s - 1))%N).
+    { rewrite E16. apply N.pow_le_mono_r; [discriminate|]. subst v. lia. }
+    assert (Y : (2 ^ s = 2 * 2 ^ (s - 1))%N).
+    { replace s with (N.succ (s - 1)) at 1 by lia. now rewrite N.pow_succ_r'. }
+    assert (Ev1 : (16 ^ (v - 1) = N.of_nat (16 ^ (N.to_nat v - 1)))%N).
+    { rewrite <- N16_pow. f_equal. lia. }
+    rewrite Ev1 in X. rewrite N.succ_double_spec in Hle. lia.
+Qed.
+
+Lemma lv_unique L k : 1 <= L -> L <= 16 ^ k -> (k = 0 \/ 16 ^ (k - 1) < L) -> k = lv L.
+Proof.
+  intros HL Hk1 Hk2. destruct (lv_spec L HL) as [A B].
+  destruct (Nat.lt_trichotomy k (lv L)) as [Hlt|[E|Hgt]]; auto; exfalso.
+  - destruct B as [B|B]; [lia|].
+    assert (16 ^ k <= 16 ^ (lv L - 1)) by (apply pow16_mono; lia). lia.
+  - destruct Hk2 as [Hk2|Hk2]; [lia|].
+    assert (16 ^ lv L <= 16 ^ (k - 1)) by (apply pow16_mono; lia). lia.
+Qed.
+
+Lemma lv_small L : L <= 1 -> lv L = 0.
+Proof.
+  intro X. destruct L as [|[|L]]; try lia; reflexivity.
+Qed.
+
+Lemma lv_clen L : 1 <= L -> clen (lv L) L = 1 /\ forall n, n < lv L -> 2 <= clen n L.
+Proof.
+  intro HL. destruct (lv_spec L HL) as [A B]. split.
+  - pose proof (clen_pos (lv L) L HL). destruct (Nat.le_gt_cases 2 (clen (lv L) L)) as [X|X]; [|lia].
+    apply clen_ge2 in X. lia.
+  - intros n Hn. apply clen_ge2. destruct B as [B|B]; [lia|].
+    assert (16 ^ n <= 16 ^ (lv L - 1)) by (apply pow16_mono; lia). lia.
+Qed.
+
+(* the root is the only element of the top layer *)
+Lemma spec_root_layers : forall n ys, (forall n', n' < n -> 2 <= length (layer_at ys n')) ->
+  spec_root ys = spec_root (layer_at ys n).
+Proof.
+  induction n; intros ys Hn; cbn [layer_at]; [reflexivity|].
+  rewrite (spec_root_step ys) by (apply (Hn 0); lia).
+  apply IHn. intros n' Hn'. apply (Hn (S n')). lia.
+Qed.
+
+Lemma spec_root_top ys : 1 <= length ys ->
+  exists r, layer_at ys (lv (length ys)) = [r] /\ spec_root ys = Some r /\ h32 r \/
+            (lv (length ys) = 0 /\ layer_at ys 0 = [r] /\ spec_root ys = Some r).
+Proof.
+  intro HL. destruct (lv_clen _ HL) as [A B].
+  assert (L1 : length (layer_at ys (lv (length ys))) = 1) by (now rewrite layer_at_length).
+  destruct (layer_at ys (lv (length ys))) as [|r [|r2 rr]] eqn:E; cbn [length] in L1; try lia.
+  exists r. destruct (lv (length ys)) as [|v] eqn:Ev.
+  - right. cbn [layer_at] in E. subst ys. auto.
+  - left. split; [reflexivity|]. split.
+    + rewrite (spec_root_layers (S v)).
+      * rewrite E. reflexivity.
+      * intros n' Hn'. rewrite layer_at_length. apply B. lia.
+    + rewrite layer_at_S in E. pose proof (layer1_h32 (layer_at ys v)) as F. rewrite E in F. now inversion F.
+Qed.
+
+(* digits *)
+Lemma digit_spec key n : digit key n = (N.to_nat key / 16 ^ n) mod 16.
+Proof.
+  unfold digit. change 15%N with (N.ones 4). rewrite N.land_ones, N.shiftr_div_pow2.
+  rewrite N2Nat.inj_mod, N2Nat.inj_div. f_equal. f_equal.
+  rewrite N.pow_mul_r. change (2 ^ 4)%N with 16%N.
+  rewrite N2Nat.inj_pow, Nat2N.id. reflexivity.
+Qed.
+
+(* ------------------------------------------------------------------ *)
+(* Prove and Add (verification)                                         *)
+
+(* the nodes on the path of key k, heights n .. 1 *)
+Fixpoint path (ys : list bytes) (k n : nat) : list bytes :=
+  match n with
+  | O => []
+  | S n' => concat (chunk_at (layer_at ys n') (k / 16 ^ S n')) :: path ys k n'
+  end.
+
+Lemma path_length ys k n : length (path ys k n) = n.
+Proof. induction n; cbn [path length]; auto. Qed.
+
+Lemma path_skipn ys k : forall n j, j <= n -> skipn (n - j) (path ys k n) = path ys k j.
+Proof.
+  induction n; intros j Hj.
+  - assert (j = 0) by lia. subst. reflexivity.
+  - destruct (Nat.eq_dec j (S n)) as [->|Nj].
+    + now rewrite Nat.sub_diag.
+    + replace (S n - j) with (S (n - j)) by lia. cbn [path skipn]. apply IHn. lia.
+Qed.
+
+Lemma path_from_end ys k : forall n i, i < n ->
+  nth_error (path ys k n) (n - 1 - i) = Some (concat (chunk_at (layer_at ys i) (k / 16 ^ S i))).
+Proof.
+  induction n; intros i Hi; [lia|].
+  destruct (Nat.eq_dec i n) as [->|Ni].
+  - replace (S n - 1 - n) with 0 by lia. reflexivity.
+  - replace (S n - 1 - i) with (S (n - 1 - i)) by lia. cbn [path nth_error]. apply IHn. lia.
+Qed.
+
+Lemma chunk_nonempty ly q : q < nchunks (length ly) -> chunk_at ly q <> [].
+Proof.
+  intros Hq E. apply (f_equal (@length _)) in E. rewrite chunk_at_length in E.
+  unfold nchunks in Hq. cbn [length] in E. lia.
+Qed.
+
+Lemma node_hash_nonempty (b : node) : b <> [] -> node_hash H b = Some (hc b).
+Proof. destruct b; [congruence|reflexivity]. Qed.
+
+(* what one step down the path finds *)
+Lemma path_step ys k key n (br : node) :
+  Forall h32 ys -> N.to_nat key = k -> k < length ys ->
+  nth_error br (digit key (S n)) = nth_error (layer_at ys (S n)) (k / 16 ^ S n) ->
+  let c := chunk_at (layer_at ys n) (k / 16 ^ S n) in
+  nth_error br (digit key (S n)) = Some (hc c) /\ c <> [] /\ Forall h32 c /\ length c <= 16 /\
+  k / 16 ^ S n < nchunks (length (layer_at ys n)) /\
+  nth_error c (digit key n) = nth_error (layer_at ys n) (k / 16 ^ n).
+Proof.
+  intros Fy Ek Hk Hbr c.
+  assert (Hq : k / 16 ^ S n < nchunks (length (layer_at ys n))).
+  { rewrite <- layer1_length, <- layer_at_S, layer_at_length. now apply div_lt_clen. }
+  split; [|split; [|split; [|split; [|split]]]].
+  - rewrite Hbr, layer_at_S. now apply nth_error_layer1.
+  - now apply chunk_nonempty.
+  - apply chunk_at_h32. now apply layer_at_h32.
+  - apply chunk_at_le16.
+  - exact Hq.
+  - subst c. rewrite digit_spec, Ek.
+    rewrite nth_error_chunk_at by (apply Nat.mod_upper_bound; lia). f_equal.
+    rewrite pow16_S. pose proof (pow16_pos n).
+    rewrite (Nat.mul_comm 16 (16 ^ n)), <- Nat.div_div by lia.
+    set (a := k / 16 ^ n). pose proof (Nat.div_mod a 16). lia.
+Qed.
+
+Lemma prove_loop_ok m ys k key : Forall h32 ys -> N.to_nat key = k -> k < length ys -> tree_stored m ys ->
+  forall n (br : node), (forall n', n' < n -> 2 <= length (layer_at ys n')) ->
+  nth_error br (digit key n) = nth_error (layer_at ys n) (k / 16 ^ n) ->
+  prove_loop m br n key = HOk (path ys k n).
+Proof.
+  intros Fy Ek Hk T. induction n as [|n IH]; intros br Hn Hbr; [reflexivity|].
+  destruct (path_step ys k key n br Fy Ek Hk Hbr) as (E1 & Nc & Fc & Lc & Hq & Enext).
+  cbn [prove_loop path]. unfold node_get. rewrite E1. unfold db_get.
+  rewrite (T n _ (Hn n (Nat.lt_succ_diag_r n)) Hq).
+  rewrite node_of_bytes_concat by assumption.
+  rewrite (IH _ (fun n' Hn' => Hn n' (Nat.lt_lt_succ_r _ _ Hn')) Enext). reflexivity.
+Qed.
+
+Lemma mt_add_loop_ok m ys k key : Forall h32 ys -> N.to_nat key = k -> k < length ys ->
+  forall n (br : node) i pre acc, length pre = i ->
+  nth_error br (digit key n) = nth_error (layer_at ys n) (k / 16 ^ n) ->
+  exists br' nodes, mt_add_loop H m br n key 0 i (pre ++ path ys k n) acc = HOk (br', nodes) /\
+                    nth_error br' (digit key 0) = nth_error ys k.
+Proof.
+  intros Fy Ek Hk. induction n as [|n IH]; intros br i pre acc Hi Hbr.
+  - cbn [mt_add_loop]. exists br, acc. split; [reflexivity|].
+    rewrite Hbr. cbn [layer_at Nat.pow]. now rewrite Nat.div_1_r.
+  - destruct (path_step ys k key n br Fy Ek Hk Hbr) as (E1 & Nc & Fc & Lc & Hq & Enext).
+    cbn [mt_add_loop path]. unfold node_get. destruct (Nat.ltb_spec i 0) as [|_]; [lia|].
+    rewrite Nat.sub_0_r, nth_error_app2 by lia. rewrite Hi, Nat.sub_diag. cbn [nth_error].
+    rewrite node_of_bytes_concat by assumption.
+    rewrite (node_hash_nonempty _ Nc), E1. cbn [obytes]. rewrite bytes_eqb_refl.
+    set (c := chunk_at (layer_at ys n) (k / 16 ^ S n)) in *.
+    replace (pre ++ concat c :: path ys k n) with ((pre ++ [concat c]) ++ path ys k n)
+      by (now rewrite <- app_assoc).
+    apply IH; [rewrite app_length; cbn [length]; lia|exact Enext].
+Qed.
+
+Lemma put_all_ok : forall l m, exists m', put_all H m l = HOk m'.
+Proof.
+  induction l as [|b l IH]; intros m; cbn [put_all]; [eauto|].
+  unfold db_put. destruct (node_hash H b); apply IH.
+Qed.
+
+Lemma min_proof_len_le level key : min_proof_len level key <= level.
+Proof. unfold min_proof_len. destruct (Nat.ltb_spec level (N.to_nat ((tz_not_xor key + 3) / 4) - 1)); lia. Qed.
+
+Lemma node_of_bytes_one r : h32 r -> node_of_bytes r = HOk [r].
+Proof.
+  intro Hr. pose proof (node_of_bytes_concat [r]) as E. cbn [concat length] in E.
+  rewrite app_nil_r in E. apply E; [repeat constructor; auto|lia].
+Qed.
+
+(* the tree built from the header of xs *)
+Lemma new_mtree_ok m xs : Forall h32 xs -> 1 <= length xs ->
+  exists r, spec_root xs = Some r /\
+    new_mtree m (spec_header xs) = HOk (mkMtree m (lv (length xs)) [r] (N.of_nat (length xs))) /\
+    layer_at xs (lv (length xs)) = [r].
+Proof.
+  intros Fx HL. unfold new_mtree, spec_header. cbn [hd_root hd_leaves]. fold (lv (length xs)).
+  destruct (spec_root_top xs HL) as (r & [(E & R & Hr)|(Ev & E & R)]).
+  - exists r. rewrite R. cbn [obytes]. rewrite (node_of_bytes_one r Hr). auto.
+  - exists r. rewrite R. cbn [layer_at] in E. subst xs. inversion Fx; subst.
+    cbn [obytes]. rewrite (node_of_bytes_one r) by assumption. rewrite Ev. auto.
+Qed.
+
+Lemma top_digit xs k key : N.to_nat key = k -> k < length xs -> 1 <= length xs ->
+  forall r, layer_at xs (lv (length xs)) = [r] ->
+  nth_error [r] (digit key (lv (length xs))) =
+  nth_error (layer_at xs (lv (length xs))) (k / 16 ^ lv (length xs)).
+Proof.
+  intros Ek Hk HL r E. destruct (lv_spec _ HL) as [A _].
+  rewrite digit_spec, Ek, E. rewrite Nat.div_small by lia. reflexivity.
+Qed.
+
+(* Prove returns the path; a tree built from the same header accepts it *)
+Lemma prove_ok m xs k : Forall h32 xs -> k < length xs -> tree_stored m xs ->
+  exists mt, new_mtree m (spec_header xs) = HOk mt /\
+             prove mt (N.of_nat k) (Some 0) = HOk (path xs k (lv (length xs))).
+Proof.
+  intros Fx Hk T. assert (HL : 1 <= length xs) by lia.
+  destruct (new_mtree_ok m xs Fx HL) as (r & R & E & El). eexists. split; [exact E|].
+  unfold prove. cbn [mt_db mt_root mt_level].
+  rewrite (prove_loop_ok m xs k (N.of_nat k) Fx (Nat2N.id k) Hk T).
+  - rewrite path_length. cbn [Nat.ltb skipn]. destruct (lv (length xs)); reflexivity.
+  - intros n' Hn'. rewrite layer_at_length. apply (proj2 (lv_clen _ HL)). exact Hn'.
+  - apply top_digit; auto using Nat2N.id.
+Qed.
+
+Lemma verify_ok m0 xs k x : Forall h32 xs -> nth_error xs k = Some x ->
+  exists vt, new_mtree m0 (spec_header xs) = HOk vt /\
+    exists vt', mt_add H vt (N.of_nat k) x (path xs k (lv (length xs))) = HOk vt'.
+Proof.
+  intros Fx Hx. assert (Hk : k < length xs) by (apply nth_error_Some; congruence).
+  assert (HL : 1 <= length xs) by lia.
+  destruct (new_mtree_ok m0 xs Fx HL) as (r & R & E & El). eexists. split; [exact E|].
+  unfold mt_add. cbn [mt_db mt_root mt_level mt_cap]. rewrite path_length.
+  pose proof (min_proof_len_le (lv (length xs)) (N.of_nat k)).
+  destruct (Nat.ltb_spec (lv (length xs)) (min_proof_len (lv (length xs)) (N.of_nat k))) as [|_]; [lia|].
+  rewrite Nat.sub_diag. cbn [skipn].
+  destruct (mt_add_loop_ok m0 xs k (N.of_nat k) Fx (Nat2N.id k) Hk (lv (length xs)) [r] 0 [] []
+              eq_refl (top_digit xs k _ (Nat2N.id k) Hk HL r El)) as (br' & nodes & E2 & E3).
+  cbn [app] in E2. rewrite E2. unfold node_get. rewrite E3, Hx. cbn [obytes].
+  rewrite bytes_eqb_refl. cbn [negb Nat.ltb].
+  destruct (put_all_ok nodes m0) as (m' & ->). change (0 <? 0) with false. cbv iota. eauto.
+Qed.
+
+(* binding: two accepted full proofs for the same key agree, or the hash collides *)
+Lemma node_of_bytes_inj a b n : node_of_bytes a = HOk n -> node_of_bytes b = HOk n -> a = b.
+Proof.
+  intros Ea Eb. apply node_of_bytes_sound in Ea. apply node_of_bytes_sound in Eb.
+  destruct Ea, Eb. congruence.
+Qed.
+
+Lemma hash_eq_bytes (b b' : node) pb pb' :
+  node_of_bytes pb = HOk b -> node_of_bytes pb' = HOk b' ->
+  obytes (node_hash H b) = obytes (node_hash H b') -> pb = pb' \/ collision.
+Proof.
+  intros E E' Hh. destruct (node_of_bytes_sound _ _ E) as [C F].
+  destruct (node_of_bytes_sound _ _ E') as [C' F'].
+  destruct b as [|x b], b' as [|x' b']; cbn [node_hash obytes] in Hh.
+  - left. cbn in C, C'. congruence.
+  - exfalso. pose proof (H_len (node_bytes (x' :: b'))) as L. rewrite <- Hh in L. discriminate.
+  - exfalso. pose proof (H_len (node_bytes (x :: b))) as L. rewrite Hh in L. discriminate.
+  - unfold node_bytes in Hh. rewrite C, C' in Hh.
+    destruct (bytes_eqb pb pb') eqn:Eq.
+    + left. now apply bytes_eqb_eq.
+    + right. exists pb, pb'. split; auto. intro X. rewrite X, bytes_eqb_refl in Eq. discriminate.
+Qed.
+
+Lemma mt_add_loop_binding m key : forall n (br : node) i pre pre' q q' acc acc' b b' nodes nodes',
+  length pre = i -> length pre' = i -> length q = n -> length q' = n ->
+  mt_add_loop H m br n key 0 i (pre ++ q) acc = HOk (b, nodes) ->
+  mt_add_loop H m br n key 0 i (pre' ++ q') acc' = HOk (b', nodes') ->
+  (q = q' /\ b = b') \/ collision.
+Proof.
+  induction n as [|n IH]; intros br i pre pre' q q' acc acc' b b' nodes nodes' Hi Hi' Hq Hq' E E'.
+  - destruct q, q'; cbn [length] in *; try lia. cbn [mt_add_loop] in *. left. split; congruence.
+  - destruct q as [|pb q]; [cbn in Hq; lia|]. destruct q' as [|pb' q']; [cbn in Hq'; lia|].
+    cbn [mt_add_loop] in E, E'. destruct (Nat.ltb_spec i 0) as [|_]; [lia|].
+    rewrite Nat.sub_0_r, nth_error_app2 in E, E' by lia.
+    rewrite Hi, Nat.sub_diag in E. rewrite Hi', Nat.sub_diag in E'. cbn [nth_error] in E, E'.
+    destruct (node_of_bytes pb) as [b1|] eqn:N1; [|discriminate].
+    destruct (node_of_bytes pb') as [b1'|] eqn:N1'; [|discriminate].
+    destruct (bytes_eqb (obytes (node_hash H b1)) (obytes (node_get br (digit key (S n))))) eqn:Q; [|discriminate].
+    destruct (bytes_eqb (obytes (node_hash H b1')) (obytes (node_get br (digit key (S n))))) eqn:Q'; [|discriminate].
+    apply bytes_eqb_eq in Q, Q'.
+    destruct (hash_eq_bytes b1 b1' pb pb' N1 N1' (eq_trans Q (eq_sym Q'))) as [Epb|C]; [|right; exact C].
+    subst pb'. rewrite N1 in N1'. inversion N1'; subst b1'.
+    replace (pre ++ pb :: q) with ((pre ++ [pb]) ++ q) in E by (now rewrite <- app_assoc).
+    replace (pre' ++ pb :: q') with ((pre' ++ [pb]) ++ q') in E' by (now rewrite <- app_assoc).
+    destruct (IH b1 (S i) (pre ++ [pb]) (pre' ++ [pb]) q q' (acc ++ [b1]) (acc' ++ [b1]) b b' nodes nodes')
+      as [[Eq Eb]|C]; auto;
+      try (rewrite app_length; cbn [length]; lia); try (cbn [length] in *; lia).
+    left. split; congruence.
+Qed.
+
+Theorem mt_add_binding vt key h p h' p' vt1 vt2 :
+  length p = mt_level vt -> length p' = mt_level vt ->
+  mt_add H vt key h p = HOk vt1 -> mt_add H vt key h' p' = HOk vt2 ->
+  (h = h' /\ p = p') \/ collision.
+Proof.
+  intros Lp Lp' E E'. unfold mt_add in E, E'. rewrite Lp in E. rewrite Lp' in E'.
+  destruct (Nat.ltb _ _); [discriminate|]. rewrite Nat.sub_diag in E, E'. cbn [skipn] in E, E'.
+  destruct (mt_add_loop H (mt_db vt) (mt_root vt) (mt_level vt) key 0 0 p []) as [[b nodes]|] eqn:L1; [|discriminate].
+  destruct (mt_add_loop H (mt_db vt) (mt_root vt) (mt_level vt) key 0 0 p' []) as [[b' nodes']|] eqn:L2; [|discriminate].
+  destruct (mt_add_loop_binding (mt_db vt) key (mt_level vt) (mt_root vt) 0 [] [] p p' [] [] b b' nodes nodes'
+              eq_refl eq_refl Lp Lp' L1 L2) as [[Ep Eb]|C]; [|right; exact C].
+  subst p' b'. left. split; [|reflexivity].
+  destruct (bytes_eqb (obytes (node_get b (digit key 0))) h) eqn:Q; [|discriminate].
+  destruct (bytes_eqb (obytes (node_get b (digit key 0))) h') eqn:Q'; [|discriminate].
+  apply bytes_eqb_eq in Q, Q'. congruence.
+Qed.
+
+(* ------------------------------------------------------------------ *)
+(* SetLen                                                               *)
+
+(* number of roots of a sequence of length n >= 1: the K with 16^(K-1) <= n < 16^K *)
+Lemma spec_roots_count : forall n ys, length ys = n -> 1 <= n ->
+  1 <= length (spec_roots ys) /\ 16 ^ (length (spec_roots ys) - 1) <= n < 16 ^ length (spec_roots ys).
+Proof.
+  induction n as [n IH] using lt_wf_ind. intros ys Hn H1.
+  assert (Nz : ys <> []) by (intro E; subst ys; cbn in Hn; lia).
+  rewrite (spec_roots_cons ys Nz). cbn [length].
+  destruct (Nat.lt_ge_cases n 16) as [Hs|Hl].
+  - rewrite spec_roots_cl1_nil by lia. cbn. lia.
+  - destruct (IH (n / 16) ltac:(lia) (cl1 ys) ltac:(rewrite cl1_length; now subst n) ltac:(lia)) as [K1 [Klo Khi]].
+    set (K := length (spec_roots (cl1 ys))) in *.
+    split; [lia|]. replace (S K - 1) with K by lia. rewrite pow16_S.
+    assert (EK : 16 ^ K = 16 * 16 ^ (K - 1)).
+    { replace K with (S (K - 1)) at 1 by lia. apply pow16_S. }
+    lia.
+Qed.
+
+Lemma roots_count_unique n K K' : 16 ^ (K - 1) <= n < 16 ^ K -> 16 ^ (K' - 1) <= n < 16 ^ K' ->
+  1 <= K -> 1 <= K' -> K = K'.
+Proof.
+  intros [A B] [A' B'] H1 H1'.
+  assert (K - 1 < K') by (apply pow16_lt_inv; lia).
+  assert (K' - 1 < K) by (apply pow16_lt_inv; lia). lia.
+Qed.
+
+(* powerOf16 *)
+Lemma N_land15 n : N.land n 15 = (n mod 16)%N.
+Proof. change 15%N with (N.ones 4). now rewrite N.land_ones. Qed.
+Lemma N_shiftr4 n : N.shiftr n 4 = (n / 16)%N.
+Proof. now rewrite N.shiftr_div_pow2. Qed.
+
+Lemma p16_sound : forall f n, power_of_16_loop f n = true -> exists k, n = N.of_nat (16 ^ k).
+Proof.
+  induction f as [|f IH]; intros n E; cbn [power_of_16_loop] in E.
+  - destruct (15 <? n)%N eqn:C; [discriminate|]. apply N.eqb_eq in E. exists 0. now subst.
+  - destruct (15 <? n)%N eqn:C.
+    + rewrite N_land15, N_shiftr4 in E.
+      destruct (N.eqb_spec (n mod 16) 0) as [Em|]; [|discriminate]. cbn [negb] in E.
+      destruct (IH _ E) as (k & Ek). exists (S k). rewrite pow16_S.
+      assert (n = 16 * (n / 16) + n mod 16)%N by (apply N.div_mod; discriminate). lia.
+    + apply N.eqb_eq in E. exists 0. now subst.
+Qed.
+
+Lemma p16_complete : forall f k, k <= f -> power_of_16_loop f (N.of_nat (16 ^ k)) = true.
+Proof.
+  induction f as [|f IH]; intros k Hk.
+  - assert (k = 0) by lia. subst. reflexivity.
+  - destruct k as [|k]; [reflexivity|]. cbn [power_of_16_loop]. rewrite pow16_S.
+    pose proof (pow16_pos k) as Hp.
+    destruct (N.ltb_spec 15 (N.of_nat (16 * 16 ^ k))) as [_|X]; [|lia].
+    rewrite N_land15, N_shiftr4.
+    replace (N.of_nat (16 * 16 ^ k) mod 16)%N with 0%N by lia. cbn [N.eqb negb].
+    replace (N.of_nat (16 * 16 ^ k) / 16)%N with (N.of_nat (16 ^ k)) by lia.
+    apply IH. lia.
+Qed.
+
+(* an int64 length has at most 16 hex digits (kept in N: no large nat is ever computed) *)
+Lemma lv_bound l : 1 <= l -> (N.of_nat l < 2 ^ 63)%N -> lv l <= 16.
+Proof.
+  intros H1 Hb. destruct (lv_spec l H1) as [_ [B|B]]; [lia|].
+  assert (X : (16 ^ N.of_nat (lv l - 1) < 16 ^ 16)%N).
+  { rewrite N16_pow. assert (Y : (2 ^ 63 < 16 ^ 16)%N) by reflexivity. lia. }
+  apply N.pow_lt_mono_r_iff in X; lia.
+Qed.
+
+(* lvl of SetLen = number of roots of a sequence of length l *)
+Lemma setlen_lvl l K : 1 <= l -> (N.of_nat l < 2 ^ 63)%N -> 1 <= K -> 16 ^ (K - 1) <= l < 16 ^ K ->
+  lv l + (if power_of_16 (N.of_nat l) then 1 else 0) = K.
+Proof.
+  intros H1 Hb HK HKl. destruct (lv_spec l H1) as [A B].
+  pose proof (lv_bound l H1 Hb) as Hl16.
+  destruct (power_of_16 (N.of_nat l)) eqn:P.
+  - apply p16_sound in P. destruct P as (k & Ek). apply Nat2N.inj in Ek.
+    assert (Ev : k = lv l).
+    { apply lv_unique; [lia|lia|]. destruct k; [left; reflexivity|right].
+      replace (S k - 1) with k by lia. rewrite Ek, pow16_S. pose proof (pow16_pos k). lia. }
+    rewrite <- Ev. apply (roots_count_unique l); auto; try lia.
+    replace (k + 1 - 1) with k by lia. replace (k + 1) with (S k) by lia. rewrite pow16_S.
+    pose proof (pow16_pos k). lia.
+  - rewrite Nat.add_0_r. apply (roots_count_unique l); auto.
+    + assert (Nl : l <> 16 ^ lv l).
+      { intro E.
+        unfold power_of_16 in P. rewrite E, p16_complete in P by lia. discriminate. }
+      destruct B as [B|B].
+      * rewrite B in *. cbn [Nat.pow] in *. lia.
+      * lia.
+    + destruct B as [B|B]; [|destruct (lv l); cbn in B |- *; lia].
+      rewrite B in *. cbn [Nat.pow] in *. assert (l = 1) by lia. subst l.
+      exfalso. unfold power_of_16 in P. cbn in P. discriminate.
+Qed.
+
+(* complete blocks of a prefix *)
+Lemma cl1_firstn ly a : a <= length ly -> cl1 (firstn a ly) = firstn (a / 16) (layer1 ly).
+Proof.
+  intro Ha. unfold cl1, layer1. rewrite firstn_length, Nat.min_l by lia.
+  rewrite firstn_map, firstn_seq0 by (unfold nchunks; lia).
+  apply map_ext_in. intros q Hq. apply in_seq in Hq. f_equal. apply chunk_at_firstn. lia.
+Qed.
+
+Lemma cl1_prefix ly : cl1 ly = firstn (length ly / 16) (layer1 ly).
+Proof. rewrite <- (cl1_firstn ly (length ly)) by lia. now rewrite firstn_all. Qed.
+
+Lemma cl1_firstn_cl1 ly a : a <= length ly -> cl1 (firstn a ly) = firstn (a / 16) (cl1 ly).
+Proof.
+  intro Ha. rewrite cl1_firstn by assumption. rewrite cl1_prefix, firstn_firstn. f_equal.
+  assert (a / 16 <= length ly / 16) by (apply Nat.div_le_mono; lia). lia.
+Qed.
+
+Lemma blocks_stored_firstn m : forall n ys a, length ys = n -> a <= n ->
+  blocks_stored m ys -> blocks_stored m (firstn a ys).
+Proof.
+  induction n as [n IH] using lt_wf_ind. intros ys a Hn Ha Hb.
+  destruct (Nat.lt_ge_cases a 16) as [Hs|Hl].
+  - apply blocks_stored_short. rewrite firstn_length. lia.
+  - apply blocks_stored_unfold in Hb. destruct Hb as [Hb0 Hb1].
+    apply blocks_stored_unfold. rewrite firstn_length, Nat.min_l by lia. split.
+    + intros q Hq. unfold chunk_stored. rewrite chunk_at_firstn by lia. apply Hb0.
+      assert (a / 16 <= length ys / 16) by (apply Nat.div_le_mono; lia). lia.
+    + rewrite cl1_firstn_cl1 by lia.
+      apply (IH (length (cl1 ys))); auto; rewrite cl1_length; subst n.
+      * lia.
+      * apply Nat.div_le_mono; lia.
+Qed.
+
+(* the first (a mod 16) children of the path node are the trailing chunk of the prefix *)
+Lemma prefix_rem ly a q : a <= length ly -> (0 < a mod 16 -> q = a / 16) ->
+  firstn (a mod 16) (chunk_at ly q) = rem16 (firstn a ly).
+Proof.
+  intros Ha Hq. unfold rem16. rewrite firstn_length, Nat.min_l by lia.
+  destruct (Nat.eq_dec (a mod 16) 0) as [E0|N0].
+  - rewrite E0. cbn [firstn]. symmetry. apply skipn_all2. rewrite firstn_length. lia.
+  - rewrite (Hq ltac:(lia)). unfold chunk_at. rewrite firstn_firstn, Nat.min_l by lia.
+    rewrite firstn_skipn_comm. f_equal. f_equal. lia.
+Qed.
+
+Lemma path_digit_arith l i : 1 <= l -> 0 < (l / 16 ^ i) mod 16 -> (l - 1) / 16 ^ S i = l / 16 ^ i / 16.
+Proof.
+  intros H1 Hd. rewrite pow16_S. pose proof (pow16_pos i) as Hp. set (b := 16 ^ i) in *.
+  pose proof (Nat.div_mod l b ltac:(lia)) as E1. pose proof (Nat.mod_upper_bound l b ltac:(lia)) as E2.
+  set (a := l / b) in *. set (r := l mod b) in *.
+  pose proof (Nat.div_mod a 16 ltac:(lia)) as E3. set (q := a / 16) in *. set (d := a mod 16) in *.
+  symmetry. apply (Nat.div_unique _ _ _ (l - 1 - 16 * b * q)); nia.
+Qed.
+
+Lemma build_roots_ok xs l P lvl : Forall h32 xs -> 1 <= l -> l <= length xs ->
+  (forall i, i < lvl -> nth_error P (length P - 1 - i) =
+                         Some (concat (chunk_at (layer_at xs i) ((l - 1) / 16 ^ S i)))) ->
+  forall n i, i + n = lvl ->
+  n = length (spec_roots (firstn (l / 16 ^ i) (layer_at xs i))) ->
+  build_roots P n i (N.of_nat (l / 16 ^ i)) = HOk (spec_roots (firstn (l / 16 ^ i) (layer_at xs i))).
+Proof.
+  intros Fx H1 Hl HP. induction n as [|n IH]; intros i Hi Hn.
+  - cbn [build_roots]. symmetry in Hn. apply length_zero_iff_nil in Hn. now rewrite Hn.
+  - set (a := l / 16 ^ i) in *. set (ly := layer_at xs i) in *.
+    assert (Ha : a <= length ly).
+    { subst a ly. rewrite layer_at_length. now apply div_le_clen. }
+    assert (Nz : firstn a ly <> []).
+    { intro E. rewrite E, spec_roots_nil in Hn. discriminate. }
+    rewrite (spec_roots_cons _ Nz) in Hn |- *. cbn [length] in Hn.
+    assert (Ec : cl1 (firstn a ly) = firstn (l / 16 ^ S i) (layer_at xs (S i))).
+    { rewrite cl1_firstn by assumption. rewrite layer_at_S. f_equal. subst a.
+      rewrite pow16_S, (Nat.mul_comm 16), Nat.div_div; pose proof (pow16_pos i); lia. }
+    cbn [build_roots]. pose proof (HP i ltac:(lia)) as HPi. unfold bytes in *. rewrite HPi. fold bytes in *.
+    set (c := chunk_at (layer_at xs i) ((l - 1) / 16 ^ S i)).
+    assert (Fc : Forall h32 c) by (apply chunk_at_h32, layer_at_h32; auto).
+    rewrite node_of_bytes_concat; [|exact Fc|apply chunk_at_le16].
+    replace (N.to_nat (N.of_nat a mod 16)) with (a mod 16) by lia.
+    assert (ER : firstn (a mod 16) c = rem16 (firstn a ly)).
+    { apply prefix_rem; auto. intro Hd. now apply path_digit_arith. }
+    assert (Lk : a mod 16 <= length c).
+    { pose proof (f_equal (@length _) ER) as X. rewrite firstn_length, rem16_length, firstn_length in X.
+      rewrite (Nat.min_l a) in X by lia. lia. }
+    unfold node_len. destruct (Nat.ltb_spec (length c) (a mod 16)) as [|_]; [lia|].
+    replace (N.of_nat a / 16)%N with (N.of_nat (l / 16 ^ S i)).
+    2:{ subst a. rewrite pow16_S, (Nat.mul_comm 16), <- Nat.div_div by (pose proof (pow16_pos i); lia). lia. }
+    rewrite (IH (S i)) by (try lia; rewrite <- Ec; lia).
+    rewrite ER, Ec. reflexivity.
+Qed.
+
+(* ------------------------------------------------------------------ *)
+(* the accumulator invariant                                            *)
+
+Definition HInv (st : hstate) (xs : list bytes) : Prop :=
+  h_roots (hs_acc st) = spec_roots xs /\ h_len (hs_acc st) = N.of_nat (length xs) /\
+  Forall h32 xs /\ sound (hs_tree st) /\ blocks_stored (hs_tree st) xs.
+
+Lemma HInv_init : HInv hstate_init [].
+Proof.
+  repeat split; try constructor. apply sound_empty. apply blocks_stored_short. cbn. lia.
+Qed.
+
+(* the header depends on roots and length only *)
+Lemma get_header_roots st xs : h_roots (hs_acc st) = spec_roots xs -> h_len (hs_acc st) = N.of_nat (length xs) ->
+  Forall h32 xs -> get_header H st = HOk (spec_header xs).
+Proof.
+  intros Hr Hl Fx. unfold get_header. rewrite Hr.
+  destruct (carry_loop_ok (length xs) xs None (hs_tree st) false eq_refl Fx (Forall_nil _)) as (m' & E & _).
+  cbn [olist] in E. rewrite app_nil_r in E. rewrite E, Hl. reflexivity.
+Qed.
+
+Lemma get_header_ok st xs : HInv st xs -> get_header H st = HOk (spec_header xs).
+Proof. intros (Hr & Hl & Fx & _). now apply get_header_roots. Qed.
+
+Lemma finalize_ok st xs : HInv st xs ->
+  (exists st1, finalize H st = HOk (spec_header xs, st1) /\ HInv st1 xs /\ tree_stored (hs_tree st1) xs /\
+               hs_acc st1 = hs_acc st)
+  \/ collision.
+Proof.
+  intros (Hr & Hl & Fx & Hs & Hb). unfold finalize. rewrite Hr.
+  destruct (carry_loop_ok (length xs) xs None (hs_tree st) true eq_refl Fx (Forall_nil _)) as (m' & E & _ & P).
+  cbn [olist] in *. rewrite app_nil_r in *. rewrite E, Hl.
+  destruct (P eq_refl Hs Hb) as [(S' & X' & T')|C]; [left|right; exact C].
+  eexists. split; [reflexivity|]. cbn [hs_acc hs_tree]. repeat split; auto.
+  eapply blocks_stored_ext; eauto.
+Qed.
+
+Lemma acc_add_ok st xs x : HInv st xs -> h32 x ->
+  (exists st', acc_add H st x = HOk st' /\ HInv st' (xs ++ [x])) \/ collision.
+Proof.
+  intros (Hr & Hl & Fx & Hs & Hb) Hx. unfold acc_add. rewrite Hr.
+  destruct (add_at_ok (length xs) xs x (hs_tree st) eq_refl Fx Hx Hs Hb) as [(m' & E & S' & X' & B')|C];
+    [left|right; exact C].
+  rewrite E. eexists. split; [reflexivity|]. cbn [hs_acc hs_tree h_roots h_len].
+  repeat split; auto.
+  - rewrite Hl, app_length. cbn [length]. lia.
+  - apply Forall_app. split; auto.
+Qed.
+
+Lemma set_len_ok st xs l : HInv st xs -> (N.of_nat (length xs) < 2 ^ 63)%N -> l <= length xs ->
+  (exists st', set_len H st (N.of_nat l) = HOk st' /\ HInv st' (firstn l xs)) \/ collision.
+Proof.
+  intros Hi Hb Hl. pose proof Hi as (Hr & Hlen & Fx & Hs & Hbs). unfold set_len. rewrite Hlen.
+  destruct (N.ltb_spec (N.of_nat (length xs)) (N.of_nat l)) as [|_]; [lia|].
+  destruct (N.eqb_spec (N.of_nat l) 0) as [E0|N0].
+  - left. eexists. split; [reflexivity|]. assert (l = 0) by lia. subst l. cbn [firstn].
+    repeat split; cbn [hs_acc hs_tree h_roots h_len]; auto. apply blocks_stored_short. cbn. lia.
+  - destruct (N.eqb_spec (N.of_nat l) (N.of_nat (length xs))) as [EL|NL].
+    + left. exists st. split; [reflexivity|]. assert (l = length xs) by lia. subst l. now rewrite firstn_all.
+    + assert (Hl1 : 1 <= l) by lia. assert (Hl2 : l < length xs) by lia.
+      destruct (finalize_ok st xs Hi) as [(st1 & Ef & Hi1 & T1 & Ea)|C]; [|right; exact C].
+      rewrite Ef. destruct Hi1 as (_ & _ & _ & Hs1 & Hbs1).
+      destruct (prove_ok (hs_tree st1) xs (l - 1) Fx ltac:(lia) T1) as (mt & Em & Ep).
+      rewrite Em. replace (N.of_nat l - 1)%N with (N.of_nat (l - 1)) by lia. rewrite Ep.
+      rewrite path_length. left.
+      (* the number of roots *)
+      set (pre := firstn l xs).
+      assert (Lpre : length pre = l) by (subst pre; rewrite firstn_length; lia).
+      destruct (spec_roots_count l pre Lpre Hl1) as (K1 & Klo & Khi).
+      set (K := length (spec_roots pre)) in *.
+      fold (lv l). rewrite (setlen_lvl l K Hl1 ltac:(lia) K1 (conj Klo Khi)).
+      assert (HKL : K <= lv (length xs)).
+      { destruct (lv_spec (length xs) ltac:(lia)) as [A _].
+        assert (K - 1 < lv (length xs)) by (apply pow16_lt_inv; lia). lia. }
+      destruct (Nat.ltb_spec (lv (length xs)) K) as [|_]; [lia|].
+      rewrite path_skipn by assumption.
+      pose proof (build_roots_ok xs l (path xs (l - 1) K) K Fx Hl1 ltac:(lia)) as BR.
+      rewrite path_length in BR.
+      specialize (BR (fun i Hi' => path_from_end xs (l - 1) K i Hi') K 0 eq_refl).
+      cbn [Nat.pow layer_at] in BR. rewrite Nat.div_1_r in BR. fold pre in BR. fold K in BR.
+      rewrite (BR eq_refl).
+      eexists. split; [reflexivity|]. cbn [hs_acc hs_tree h_roots h_len].
+      repeat split; auto.
+      * lia.
+      * subst pre. now apply Forall_firstn'.
+      * subst pre. eapply blocks_stored_firstn; eauto. lia.
+Qed.
+
+(* ------------------------------------------------------------------ *)
+(* histories                                                            *)
+
+Definition hop_ok (o : hop) : Prop := match o with HAdd h => h32 h | _ => True end.
+
+Definition seq_step (xs : list bytes) (o : hop) : list bytes :=
+  match o with
+  | HAdd h => xs ++ [h]
+  | HSetLen l => if Nat.leb (N.to_nat l) (length xs) then firstn (N.to_nat l) xs else xs
+  | _ => xs
+  end.
+Definition hseq (ops : list hop) : list bytes := fold_left seq_step ops [].
+
+Fixpoint adds (ops : list hop) : nat :=
+  match ops with [] => 0 | HAdd _ :: r => S (adds r) | _ :: r => adds r end.
+
+Lemma hstep_inv st xs o : HInv st xs -> hop_ok o -> (N.of_nat (length xs + adds [o]) < 2 ^ 63)%N ->
+  HInv (hstep H st o) (seq_step xs o) \/ collision.
+Proof.
+  intros Hi Ho Hb. destruct o as [h| | |l]; cbn [hstep seq_step].
+  - destruct (acc_add_ok st xs h Hi Ho) as [(st' & E & Hi')|C]; [left|right; exact C]. now rewrite E.
+  - destruct (finalize_ok st xs Hi) as [(st1 & E & Hi1 & _)|C]; [left|right; exact C]. now rewrite E.
+  - now left.
+  - destruct (Nat.leb_spec (N.to_nat l) (length xs)) as [Hle|Hgt].
+    + destruct (set_len_ok st xs (N.to_nat l) Hi ltac:(cbn [adds] in Hb; lia) Hle) as [(st' & E & Hi')|C];
+        [left|right; exact C].
+      rewrite N2Nat.id in E. now rewrite E.
+    + left. unfold set_len. destruct Hi as (Hr & Hlen & Hrest). rewrite Hlen.
+      destruct (N.ltb_spec (N.of_nat (length xs)) l) as [_|]; [|lia]. repeat split; tauto.
+Qed.
+
+Lemma hsteps_inv : forall ops st xs, HInv st xs -> Forall hop_ok ops ->
+  (N.of_nat (length xs + adds ops) < 2 ^ 63)%N ->
+  HInv (fold_left (hstep H) ops st) (fold_left seq_step ops xs) \/ collision.
+Proof.
+  induction ops as [|o ops IH]; intros st xs Hi F Hb; [now left|].
+  inversion F; subst. cbn [fold_left].
+  assert (Hb1 : (N.of_nat (length xs + adds [o]) < 2 ^ 63)%N).
+  { destruct o; cbn [adds] in *; lia. }
+  destruct (hstep_inv st xs o Hi H2 Hb1) as [Hi'|C]; [|right; exact C].
+  apply IH; auto.
+  destruct o as [h| | |l]; cbn [seq_step adds] in *; try lia.
+  - rewrite app_length. cbn [length]. lia.
+  - destruct (Nat.leb_spec (N.to_nat l) (length xs)); [rewrite firstn_length|]; lia.
+Qed.
+
+Lemma hrun_inv ops : Forall hop_ok ops -> (N.of_nat (adds ops) < 2 ^ 63)%N ->
+  HInv (hrun H ops) (hseq ops) \/ collision.
+Proof. intros F Hb. apply (hsteps_inv ops hstate_init [] HInv_init F). exact Hb. Qed.
+
+(* additions only: roots and header need nothing from the bucket *)
+Lemma adds_roots : forall xs st ys, h_roots (hs_acc st) = spec_roots ys -> h_len (hs_acc st) = N.of_nat (length ys) ->
+  Forall h32 xs ->
+  h_roots (hs_acc (fold_left (hstep H) (map HAdd xs) st)) = spec_roots (ys ++ xs) /\
+  h_len (hs_acc (fold_left (hstep H) (map HAdd xs) st)) = N.of_nat (length (ys ++ xs)).
+Proof.
+  induction xs as [|x xs IH]; intros st ys Hr Hl F; cbn [map fold_left].
+  - rewrite app_nil_r. auto.
+  - inversion F; subst. cbn [hstep]. unfold acc_add. rewrite Hr.
+    destruct (add_at_roots (length ys) ys x (hs_tree st) eq_refl H2) as (m' & E). rewrite E.
+    replace (ys ++ x :: xs) with ((ys ++ [x]) ++ xs) by (now rewrite <- app_assoc).
+    apply IH; auto. cbn [hs_acc h_len]. rewrite Hl, app_length. cbn [length]. lia.
+Qed.
+
+(* ------------------------------------------------------------------ *)
+(* the statements of Prop_C28                                           *)
+
+Theorem header_of_adds xs : Forall h32 xs ->
+  get_header H (hrun H (map HAdd xs)) = HOk (spec_header xs) /\
+  h_roots (hs_acc (hrun H (map HAdd xs))) = spec_roots xs.
+Proof.
+  intro F. destruct (adds_roots xs hstate_init [] eq_refl eq_refl F) as [Hr Hl]. cbn [app] in *.
+  split; [|exact Hr]. now apply get_header_roots.
+Qed.
+
+Theorem header_function_of_sequence ops : Forall hop_ok ops -> (N.of_nat (adds ops) < 2 ^ 63)%N ->
+  (get_header H (hrun H ops) = HOk (spec_header (hseq ops)) /\
+   exists st1, finalize H (hrun H ops) = HOk (spec_header (hseq ops), st1) /\
+               get_header H st1 = HOk (spec_header (hseq ops)))
+  \/ collision.
+Proof.
+  intros F Hb. destruct (hrun_inv ops F Hb) as [Hi|C]; [|right; exact C].
+  destruct (finalize_ok _ _ Hi) as [(st1 & E & Hi1 & _)|C]; [left|right; exact C].
+  split; [now apply get_header_ok|]. exists st1. split; [exact E|now apply get_header_ok].
+Qed.
+
+Theorem proof_accepted ops i x : Forall hop_ok ops -> (N.of_nat (adds ops) < 2 ^ 63)%N ->
+  nth_error (hseq ops) i = Some x ->
+  (exists st1 mt p,
+     finalize H (hrun H ops) = HOk (spec_header (hseq ops), st1) /\
+     new_mtree (hs_tree st1) (spec_header (hseq ops)) = HOk mt /\
+     prove mt (N.of_nat i) (Some 0) = HOk p /\ length p = mt_level mt /\
+     forall m0, exists vt vt', new_mtree m0 (spec_header (hseq ops)) = HOk vt /\
+                               mt_add H vt (N.of_nat i) x p = HOk vt')
+  \/ collision.
+Proof.
+  intros F Hb Hx. destruct (hrun_inv ops F Hb) as [Hi|C]; [|right; exact C].
+  destruct (finalize_ok _ _ Hi) as [(st1 & E & Hi1 & T1 & _)|C]; [left|right; exact C].
+  destruct Hi as (_ & _ & Fx & _).
+  assert (Hk : i < length (hseq ops)) by (apply nth_error_Some; congruence).
+  destruct (prove_ok (hs_tree st1) _ i Fx Hk T1) as (mt & Em & Ep).
+  exists st1, mt, (path (hseq ops) i (lv (length (hseq ops)))).
+  split; [exact E|]. split; [exact Em|]. split; [exact Ep|]. split.
+  - rewrite path_length. destruct (new_mtree_ok (hs_tree st1) _ Fx ltac:(lia)) as (r & _ & Em' & _).
+    rewrite Em in Em'. inversion Em'; subst. reflexivity.
+  - intro m0. destruct (verify_ok m0 _ i x Fx Hx) as (vt & Ev & vt' & Ea). eauto.
+Qed.
+
+Theorem altered_rejected_or_collision vt key h p vt1 h' p' :
+  length p = mt_level vt -> length p' = mt_level vt ->
+  mt_add H vt key h p = HOk vt1 -> (h', p') <> (h, p) ->
+  (forall vt2, mt_add H vt key h' p' <> HOk vt2) \/ collision.
+Proof.
+  intros Lp Lp' E Hne. destruct (mt_add H vt key h' p') as [vt2|e] eqn:E'.
+  - destruct (mt_add_binding vt key h p h' p' vt1 vt2 Lp Lp' E E') as [[-> ->]|C]; [congruence|right; exact C].
+  - left. intros vt2 X. discriminate.
+Qed.
+
+Theorem rewind ops l : Forall hop_ok ops -> (N.of_nat (adds ops) < 2 ^ 63)%N -> l <= length (hseq ops) ->
+  (exists st', set_len H (hrun H ops) (N.of_nat l) = HOk st' /\
+     h_roots (hs_acc st') = spec_roots (firstn l (hseq ops)) /\
+     get_header H st' = HOk (spec_header (firstn l (hseq ops))) /\
+     get_header H (hrun H (map HAdd (firstn l (hseq ops)))) = HOk (spec_header (firstn l (hseq ops))) /\
+     h_roots (hs_acc (hrun H (map HAdd (firstn l (hseq ops))))) = spec_roots (firstn l (hseq ops)))
+  \/ collision.
+Proof.
+  intros F Hb Hl. destruct (hrun_inv ops F Hb) as [Hi|C]; [|right; exact C].
+  assert (Hlen : length (hseq ops) <= adds ops).
+  { clear - ops. unfold hseq. assert (G : forall ops xs, length (fold_left seq_step ops xs) <= length xs + adds ops).
+    { induction ops as [|o ops IH]; intros xs; cbn [fold_left adds]; [lia|].
+      specialize (IH (seq_step xs o)). destruct o as [h| | |l0]; cbn [seq_step] in *; try lia.
+      - rewrite app_length in IH. cbn [length] in IH. lia.
+      - destruct (Nat.leb_spec (N.to_nat l0) (length xs)); [rewrite firstn_length in IH|]; lia. }
+    specialize (G ops []). cbn [length] in G. lia. }
+  destruct (set_len_ok _ _ l Hi ltac:(lia) Hl) as [(st' & E & Hi')|C]; [left|right; exact C].
+  pose proof Hi as (_ & _ & Fx & _).
+  destruct (header_of_adds (firstn l (hseq ops)) (Forall_firstn' _ _ _ Fx)) as [G1 G2].
+  exists st'. split; [exact E|]. split; [apply Hi'|]. split; [now apply get_header_ok|]. auto.
+Qed.
+
 End Proofs.
+
+(* ------------------------------------------------------------------ *)
+(* the hypotheses are satisfiable *)
+Definition H_example (x : bytes) : bytes := firstn 32 (x ++ repeat 0%N 32).
+
+Example H_example_hash32 : hash32 H_example.
+Proof. intro x. unfold H_example. rewrite firstn_length, app_length, repeat_length. lia. Qed.
+
+Example history_example :
+  let h (i : N) := repeat i 32 in
+  let ops := map (fun i => HAdd (h (N.of_nat i))) (seq 0 20) ++ [HFinalize; HSetLen 17; HAdd (h 99%N); HGetHeader; HSetLen 3] in
+  Forall hop_ok ops /\ (N.of_nat (adds ops) < 2 ^ 63)%N /\ length (hseq ops) = 3 /\
+  nth_error (hseq ops) 2 = Some (h 2%N).
+Proof.
+  cbv zeta. split; [|split; [|split]].
+  - apply Forall_app. split; [|repeat constructor].
+    apply Forall_forall. intros o Ho. apply in_map_iff in Ho. destruct Ho as (i & <- & _).
+    cbn. unfold h32. now rewrite repeat_length.
+  - reflexivity.
+  - reflexivity.
+  - reflexivity.
+Qed.
